@@ -262,6 +262,7 @@ pub fn run(tier: &str, seed: u64) -> Report {
     }
   }
   workspace_part(&mut report, &mut batch, &mut rng, if tier == "thorough" { 1500 } else { 150 });
+  multi_package_part(&mut report, &mut rng, if tier == "thorough" { 1500 } else { 150 });
   batch.finish(&mut report, "C12");
   report
 }
@@ -343,6 +344,54 @@ fn workspace_part(report: &mut Report, batch: &mut Batch, rng: &mut Rng, n: usiz
     warm_model(batch, &w0, &r2, &stored, &all);
   }
   WORKSPACE.with(|w| w.set(false));
+}
+
+/// several packages sharing one cache: two top-level packages refer to a third one that only they
+/// reach; an edit removes the references of one of them
+fn multi_package_part(report: &mut Report, rng: &mut Rng, n: usize) {
+  for i in 0..n {
+    let mut pr = rng.fork();
+    let mw = crate::c09::gen_multi(&mut pr, i, i % 2 == 0);
+    let w0 = mw.world();
+    let replay = json!({"multi_package_world": w0.describe()});
+    report.evaluations += 1;
+    let r0 = run_fast_check(&w0, None, false);
+    if !r0.graph_errors.is_empty() {
+      report.fail("oracle", "generated-package-does-not-build", r0.graph_errors.join(" | "), replay.clone());
+      continue;
+    }
+    statement(report, &w0, &r0, &r0, false, "several packages, cache-less run", &replay);
+    let cache = MemCache::default();
+    let r1 = run_fast_check(&w0, Some(&cache), false);
+    if r1.slots != r0.slots {
+      report.fail("oracle", "cold-cache-run-differs-from-cacheless-run", format!("several packages: {}", same_outputs(&r0, &r1).unwrap_or("diagnostics differ".into())), replay.clone());
+    }
+    let r2 = run_fast_check(&w0, Some(&cache), false);
+    statement(report, &w0, &r0, &r2, true, "several packages, warm run", &replay);
+    // edits: each referring package in turn loses its references to the other packages
+    let mut cur = mw;
+    for a in 0..cur.pkgs.len() {
+      if !cur.cross.iter().any(|c| c.0 == a) {
+        continue;
+      }
+      let next = cur.without_cross_of(a);
+      let w1 = next.world();
+      let replay1 = json!({"before": replay, "edit": format!("package {} drops its references to other packages", next.pkgs[a].name), "after": w1.describe()});
+      let r3n = run_fast_check(&w1, None, false);
+      if !r3n.graph_errors.is_empty() {
+        break;
+      }
+      let sets_before = cache.sets.borrow().len();
+      let r3 = run_fast_check(&w1, Some(&cache), false);
+      let rewritten = cache.sets.borrow().len() - sets_before;
+      statement(report, &w1, &r3n, &r3, false, &format!("several packages, cached run after package {} dropped its cross-package references", next.pkgs[a].name), &replay1);
+      let r4 = run_fast_check(&w1, Some(&cache), false);
+      statement(report, &w1, &r3n, &r4, true, "several packages, second cached run after the edit", &replay1);
+      report.nontrivial.insert(format!("multi/p{}/cross{}/edit{}/rewritten{}", next.pkgs.len(), cur.cross.len().min(6), a, rewritten.min(3)));
+      report.count(&format!("multi-package-history:entries-rewritten-after-edit:{}", rewritten.min(3)));
+      cur = next;
+    }
+  }
 }
 
 type Stored = Vec<Vec<(String, bool, u64)>>;
